@@ -107,6 +107,7 @@ class Check:
         wall = time.time() - self.t0
         if self.soft_errors:
             analysis_error = "; ".join([*( [analysis_error] if analysis_error else []), *self.soft_errors])
+        self.analysis_error = analysis_error  # the reason of an exit 2, for tools that run checks in memory
         lines: list[str] = []
         replay_paths: list[str] = []
         for inst in self.known_hits:
